@@ -23,6 +23,7 @@
 #include "verif.h"
 #define ENV_PROP "C10"
 #define ENV_IS_PAYLOAD(p, n) 1
+#define DR_DEFINES_LOOKUP
 #include "C10/dr_common.h"
 
 static unsigned g_lk_n;		/* lookups */
